@@ -909,6 +909,16 @@ def fn_addProto : List String := [
   "return nil"
 ]
 
+def fn_addProtoBeforeNewKey : List String := [
+  "_, exists := f.values[\"prototype\"]",
+  "if !exists",
+  "_, exists := f.values[KEY]",
+  "if !exists",
+  "f.addPrototype()",
+  "end",
+  "end"
+]
+
 def fn_addPrototype : List String := [
   "proto := f.val.runtime.NewObject()",
   "proto.self._putProp(\"constructor\", f.val, true, false, true)",
@@ -924,12 +934,12 @@ def fn_getOwnPropStr : List String := [
 ]
 
 def fn_setOwnStr : List String := [
-  "f._addProto(KEY)",
+  "f._addProtoBeforeNewKey(KEY)",
   "return f.baseObject.setOwn(KEY, val, throw)"
 ]
 
 def fn_defineOwnPropertyStr : List String := [
-  "f._addProto(KEY)",
+  "f._addProtoBeforeNewKey(KEY)",
   "return f.baseObject.defineOwnProperty(KEY, descr, throw)"
 ]
 
@@ -1053,6 +1063,7 @@ theorem ta_defineIdxProperty_expected : ta_defineIdxProperty = Expected.ta_defin
 theorem ta_defineOwnPropertyStr_expected : ta_defineOwnPropertyStr = Expected.ta_defineOwnPropertyStr := by rfl
 theorem ta_defineOwnPropertyIdx_expected : ta_defineOwnPropertyIdx = Expected.ta_defineOwnPropertyIdx := by rfl
 theorem fn_addProto_expected : fn_addProto = Expected.fn_addProto := by rfl
+theorem fn_addProtoBeforeNewKey_expected : fn_addProtoBeforeNewKey = Expected.fn_addProtoBeforeNewKey := by rfl
 theorem fn_addPrototype_expected : fn_addPrototype = Expected.fn_addPrototype := by rfl
 theorem fn_getOwnPropStr_expected : fn_getOwnPropStr = Expected.fn_getOwnPropStr := by rfl
 theorem fn_setOwnStr_expected : fn_setOwnStr = Expected.fn_setOwnStr := by rfl
